@@ -27,6 +27,7 @@ func init() {
 			"Section lists: (a) directed enumeration, independent of the seed: malformed operator x variant x boundary position x kind pair x list order (overlap shapes at 0x1000, 0x801000, 0x7ffff000, 0x80000000, 0xff003000, 0xffffe000 and the last page below 4 GiB incl. ranges that end at or beyond 2^32; misaligned address; empty / non-page-multiple length; duplicate CPUID / secrets; missing kind; unknown kind) with well-formed controls (adjacent, gap, last page, address 0, range crossing 4 GiB); (b) random well-formed lists of 3..12 disjoint ranges anywhere in 32 bits; (c) a random well-formed list with one perturbation. Also the repository's 2 MiB example with all 15 counts on both products. (d) concurrent histories: 4|8|16 goroutines released on a barrier, each running 3-6 rounds of pre-drawn calls (both entry points, both products, all vCPU classes) on its own well-formed images, on two images shared by all goroutines and on shared malformed images; every call was also made alone beforehand. " +
 			"(e) second directed enumeration, independent of the seed: one range of 9..65537 pages whose page count is not a power of two (and of 2^16, 2^18+1, 2^19, 2^19+1, 2^20-1 pages), low or ending exactly at 4 GiB, first or last in the list, per kind; lists of 13..1000 pairwise-disjoint ranges in non-monotonic address order with the mandatory kinds on the first or the last three entries; lists of 33..300 ranges with exactly one defect that involves only the last entries (identical / second-page overlap of the last two, last with fifth, duplicate CPUID / secrets, unknown kind, zero length, bad length, misaligned address). " +
 			"(f) sequences: one caller makes 28-44 calls (both entry points, vCPU counts 1..300 and the table, both products) on sibling images (base; one filler byte / the reset address / the order of two ranges / the place of one range changed; one defect added; unrelated images of the same and of another size; ranges stretched to 1..300 pages) that are copied into ONE arena refilled in place or passed in buffers of their own, with ONE LaunchOptions and ONE SnpEndorsementRequest value kept for the whole history (only the fields that change are written) or fresh ones, refused calls (vCPU count < 1, malformed sibling) before good ones; results are kept as returned and compared again after every later call, a quarter of them is overwritten by the caller and the identical call made again. " +
+			"(g) contents: a well-formed image of 5..40 pages in which 1..6 pages that hold neither the table nor the metadata are overwritten with the pages A and B of one pair, in a drawn pattern over neighbouring or scattered pages: A and B identical; constant (0x00, 0xff, ...) and one bit / one byte / another constant apart; one bit apart (first / last byte, word and half-page boundaries, anywhere); same byte histogram (two words swapped, rotated by one byte); different but with equal CRC-32 (IEEE, Castagnoli, Koopman), CRC-64 (ISO, ECMA) and XOR fold at once (difference from the common kernel, confined to 64 / 256 / 4096 bytes); with equal Adler-32, byte sum and 16/32/64-bit word sums; with equal FNV-1a-32, FNV-1-32, x31 and x33 string hash (equal first 4088 bytes, birthday search over the last 8); for a third of the cases A is the page that holds the GUIDed table or the metadata header and B shares its fingerprint. The arrangements mixed, all-A, letters swapped, all-B and mixed again are measured one after the other with one vCPU count and product (the first twice and with a second combination, a quarter also through sev.UnsignedSnp). " +
 			"Oracle: the image is re-parsed by the model (must equal the generator's spec); accepted (err==nil) => the parsed section list is in none of C04's malformed classes (64-bit arithmetic) and the digest equals the model's PAGE_INFO/SHA-384 chain; both calls agree; image and options unchanged; a concurrent call returns the model's digest, refuses malformed images and equals the same call made alone; in a sequence every call is judged by the same rules against what the caller last wrote into its options / request, and a result the caller kept still reads as returned after every later call. Rejections are counted, never judged. " +
 			"non-trivial cell = (entry point, generator class, vCPU class, product, outcome) in which the tool accepted (digest compared) or the image was model-malformed (acceptance decided)",
 		Assumptions: []string{
@@ -135,10 +136,13 @@ type wl struct {
 
 	seqEqual, seqSameSlot, seqAfterFailure, seqRepeat, seqSharedOpts, seqSharedReq, seqOddRange int
 	longRangeEqual, manyRangesEqual, deepDecided                                                int
+
+	contEqual                       map[string]int // per fingerprint family: accepted-equal with both pages of the pair in one image
+	contStructEqual, contLaterEqual int
 }
 
 func run(c *core.Ctx) {
-	w := &wl{c: c, layouts: map[uint32]map[[2]uint32]struct{}{}, classDecided: map[string]int{}}
+	w := &wl{c: c, layouts: map[uint32]map[[2]uint32]struct{}{}, classDecided: map[string]int{}, contEqual: map[string]int{}}
 	dir := buildDirected()
 	nDir := len(dir)
 	nEx := 2
@@ -150,7 +154,9 @@ func run(c *core.Ctx) {
 	nDir2 := len(dir2)
 	nSeq := c.N(64, 640)
 	first2 := nDir + nEx + nWf + nMal + nConc
-	n := first2 + nDir2 + nSeq
+	nCont := c.N(300, 3000)
+	first3 := first2 + nDir2 + nSeq
+	n := first3 + nCont
 	for i := 0; i < n; i++ {
 		if !c.Mine(i) {
 			continue
@@ -179,6 +185,8 @@ func run(c *core.Ctx) {
 			}
 			w.image(i, r, fmt.Sprintf("wellformed#%d %s", i, layoutClass(secs)), cls, sp, 3, i%4 == 0)
 			c.Count("cases/wellformed", 1)
+		case i >= first3:
+			w.contents(i, r, i-first3)
 		case i >= first2+nDir2:
 			w.sequence(i, r)
 		case i >= first2:
@@ -238,6 +246,11 @@ func run(c *core.Ctx) {
 	c.Floor("sequence:accepted-equal-right-after-a-refused-call", w.seqAfterFailure > 0)
 	c.Floor("sequence:accepted-equal-on-the-same-call-after-the-caller-overwrote-its-result", w.seqRepeat > 0)
 	c.Floor("sequence:accepted-equal-with-a-range-of->=8-pages-not-a-power-of-two", w.seqOddRange > 0)
+	for _, f := range contentFams {
+		c.Floor("contents:accepted-equal-with-both-pages-of-a-pair-in-one-rom/"+f.name, w.contEqual[f.name] > 0)
+	}
+	c.Floor("contents:accepted-equal-with-a-page-that-shares-the-fingerprint-of-the-table-or-metadata-page", w.contStructEqual > 0)
+	c.Floor("contents:accepted-equal-on-a-later-arrangement-of-the-same-pair", w.contLaterEqual > 0)
 	c.Floor("accepted-on-genoa", w.genoa > 0)
 	c.Floor("accepted-rom-of->1-page", w.multiPageRom > 0)
 }
